@@ -96,6 +96,8 @@ class Table(dict):
             return
         if self.has_index():
             buffer_df = pd.DataFrame(self.buffer, columns=self.columns)
+            # several buffered inserts of one key: the last one wins
+            buffer_df = buffer_df.drop_duplicates(subset=self.idx_cols, keep='last')
             buffer_df = self._create_index_from_cols(buffer_df, self.idx_cols)
 
             # Update existing rows and append new rows
